@@ -6,7 +6,7 @@
 //! can be run "windowed": other operations are then executed from inside the yield-point callback,
 //! i.e. exactly between the two halves of the real operation, and the log shows the halves as
 //! separate ops (rxbegin/rxcopy/rxend, droprel/dropclear, pollbegin/pollend).
-use ethercrab::verif::{self, VCreated, VFuture, VReceived};
+use ethercrab::verif::{self, VCreated, VFuture, VHandle, VPdu, VReceived};
 use ethercrab::{Command, MainDevice, MainDeviceConfig, PduRx, PduStorage, PduTx, Reads, SendableFrame, Timeouts, Writes};
 use std::cell::Cell;
 use std::future::Future;
@@ -98,6 +98,11 @@ struct World {
     poll_was: Option<u8>,
     cur_poll_expired: bool,
     in_window: bool,
+    /// handles of the datagrams pushed into the frame being built / awaiting a response
+    handles: Vec<Vec<VHandle>>,
+    /// payload (datagram area) of the response each slot accepted last
+    accepted: Vec<Option<Vec<u8>>>,
+    views: Vec<Option<ViewH>>,
     last_status: Vec<u8>,
     rx_inside: Option<usize>,
     /// the reader is in the middle of dropping this slot's ReceivedFrame
@@ -108,6 +113,32 @@ struct World {
     expect: Vec<Option<Vec<u8>>>,
     /// expectation captured when TX claimed the slot
     expect_tx: Vec<Option<Vec<u8>>>,
+}
+
+struct ViewH {
+    pdu: VPdu<'static>,
+    slot: usize,
+    start: usize,
+    len: usize,
+    first_seen: Vec<u8>,
+}
+
+/// independent parse of a response's datagram area: (data, wkc) per datagram
+fn parse_dgs(p: &[u8]) -> Vec<(Vec<u8>, u16)> {
+    let mut out = Vec::new();
+    let mut pos = 0usize;
+    loop {
+        if p.len() < pos + 12 { break; }
+        let lf = u16::from_le_bytes([p[pos + 6], p[pos + 7]]);
+        let len = (lf & 0x7ff) as usize;
+        if p.len() < pos + 12 + len { break; }
+        let data = p[pos + 10..pos + 10 + len].to_vec();
+        let wkc = u16::from_le_bytes([p[pos + 10 + len], p[pos + 11 + len]]);
+        out.push((data, wkc));
+        if lf & 0x8000 == 0 { break; }
+        pos += 12 + len;
+    }
+    out
 }
 
 #[derive(Clone)]
@@ -292,6 +323,7 @@ impl World {
                 }
                 self.created[i] = Some(f);
                 self.building[i].clear();
+                self.handles[i].clear();
                 Some(i)
             }
             Err(e) => {
@@ -312,6 +344,7 @@ impl World {
                 self.obs.extend([1, h.pdu_idx as i64, h.index_in_frame as i64, h.alloc_size as i64]);
                 let len = ovr.map(|o| (o as usize).max(data.len())).unwrap_or(data.len());
                 self.building[i].push(Dg { code: code_of(kind), idx: h.pdu_idx, raw: raw4(kind, a, r), len, data: data.to_vec() });
+                self.handles[i].push(h);
             }
             Err(_) => self.obs.push(2),
         }
@@ -326,6 +359,7 @@ impl World {
             Ok(Some((n, h))) => {
                 self.obs.extend([4, n as i64, h.pdu_idx as i64, h.index_in_frame as i64, h.alloc_size as i64]);
                 self.building[i].push(Dg { code: code_of(kind), idx: h.pdu_idx, raw: raw4(kind, a, r), len: n, data: data[..n].to_vec() });
+                self.handles[i].push(h);
             }
             Err(_) => self.obs.push(2),
         }
@@ -429,6 +463,20 @@ impl World {
             }
         };
         let after = self.full_snapshot();
+        if code == 1 && bytes.len() >= 16 {
+            let plen = (u16::from_le_bytes([bytes[14], bytes[15]]) & 0x7ff) as usize;
+            for k in 0..self.n {
+                if after[k].0 == 6 && before[k].0 != 6 {
+                    self.accepted[k] = Some(bytes[16..16 + plen].to_vec());
+                    // routing: the frame's first index must be this request's first index
+                    if let Some(h) = self.handles[k].first() {
+                        if h.pdu_idx != bytes[17] {
+                            self.oracle.push(format!("routing-wrong-request: response with first index {} completed the request in slot {} whose first index is {}", bytes[17], k, h.pdu_idx));
+                        }
+                    }
+                }
+            }
+        }
         if !windowed && !self.in_window {
             // C05 oracle, stated on the implementation alone
             let changed: Vec<usize> = (0..self.n).filter(|i| before[*i] != after[*i]).collect();
@@ -529,6 +577,93 @@ impl World {
         self.snap();
     }
 
+    /// ReceivedFrame::first_pdu (consumes the frame) -> a view
+    fn take(&mut self, i: usize, wrong: u8) {
+        let rf = self.received[i].take().unwrap();
+        let mut h = match self.handles[i].first() { Some(h) => *h, None => VHandle { index_in_frame: 0, pdu_idx: 0, command_code: 0, alloc_size: 12 } };
+        if wrong == 1 { h.pdu_idx = h.pdu_idx.wrapping_add(1); }
+        if wrong == 2 { h.command_code ^= 1; }
+        self.ops.push(format!("{{\"o\":\"take\",\"i\":{},\"code\":{},\"idx\":{}}}", i, h.command_code, h.pdu_idx));
+        let res = std::panic::catch_unwind(std::panic::AssertUnwindSafe(move || rf.first_pdu(h)));
+        match res {
+            Err(_) => { self.obs.push(-99); self.oracle.push("read-panic: first_pdu panicked".into()); }
+            Ok(Err(e)) => { self.obs.push(2); self.obs.extend(err_code(&e)); }
+            Ok(Ok(p)) => {
+                let bytes = p.bytes().to_vec();
+                self.obs.extend([1, p.len() as i64, p.working_counter() as i64]);
+                self.obs.extend(bytes.iter().map(|x| *x as i64));
+                // byte-exactness against what the network returned for this request
+                if wrong == 0 {
+                    if let Some(acc) = &self.accepted[i] {
+                        let dgs = parse_dgs(acc);
+                        match dgs.first() {
+                            Some((d, w)) if *d == bytes && *w == p.working_counter() => {}
+                            _ => self.oracle.push(format!("routing-bytes: slot {} first_pdu returned data/wkc that differ from the response the network returned", i)),
+                        }
+                    }
+                }
+                let len = p.len();
+                self.views.push(Some(ViewH { pdu: p, slot: i, start: 10, len, first_seen: bytes }));
+            }
+        }
+        self.snap();
+    }
+
+    fn iter(&mut self, i: usize) {
+        let rf = self.received[i].take().unwrap();
+        self.ops.push(format!("{{\"o\":\"iter\",\"i\":{}}}", i));
+        let mut got: Vec<Result<(Vec<u8>, u16), Vec<i64>>> = Vec::new();
+        let res = std::panic::catch_unwind(std::panic::AssertUnwindSafe(|| {
+            rf.for_each_pdu(|r| match r {
+                Ok((d, w)) => got.push(Ok((d.to_vec(), w))),
+                Err(e) => got.push(Err(err_code(&e))),
+            })
+        }));
+        if res.is_err() { self.obs.push(-99); self.oracle.push("read-panic: pdu iterator panicked".into()); }
+        for g in &got {
+            match g {
+                Ok((d, w)) => { self.obs.extend([1, d.len() as i64, *w as i64]); self.obs.extend(d.iter().map(|x| *x as i64)); }
+                Err(c) => { self.obs.push(2); self.obs.extend(c.iter()); }
+            }
+        }
+        if let Some(acc) = &self.accepted[i] {
+            let dgs = parse_dgs(acc);
+            let oks: Vec<(Vec<u8>, u16)> = got.iter().filter_map(|g| g.as_ref().ok().cloned()).collect();
+            if oks != dgs {
+                self.oracle.push(format!("routing-bytes: slot {} iterator returned {} datagrams that differ from the {} the network returned", i, oks.len(), dgs.len()));
+            }
+        }
+        self.snap();
+    }
+
+    fn vread(&mut self, k: usize) {
+        let (slot, start, len) = { let v = self.views[k].as_ref().unwrap(); (v.slot, v.start, v.len) };
+        self.ops.push(format!("{{\"o\":\"vread\",\"i\":{},\"start\":{},\"len\":{}}}", slot, start, len));
+        let v = self.views[k].as_ref().unwrap();
+        let now = v.pdu.bytes().to_vec();
+        if now.len() != len { self.oracle.push(format!("view-length: view shows {} bytes, expected {}", now.len(), len)); }
+        if now != v.first_seen {
+            self.oracle.push(format!("view-unstable: a held view into slot {} no longer shows the bytes it showed when it was created", slot));
+        }
+        self.obs.extend(now.iter().map(|x| *x as i64));
+        self.snap();
+    }
+
+    fn vtrim(&mut self, k: usize, ct: usize) {
+        let v = self.views[k].as_mut().unwrap();
+        let before = v.pdu.bytes().to_vec();
+        v.pdu.trim_front(ct);
+        let c = ct.min(v.len);
+        v.start += c;
+        v.len -= c;
+        v.first_seen = v.first_seen[c.min(v.first_seen.len())..].to_vec();
+        let after = v.pdu.bytes().to_vec();
+        if after != before[c.min(before.len())..] {
+            self.oracle.push(format!("view-trim: after trim_front({}) of a {}-byte view the view shows {} bytes that are not the rest of its data area", ct, before.len(), after.len()));
+        }
+        self.vread(k);
+    }
+
     fn drop_fut(&mut self, i: usize) {
         let st = self.md.verif_slot(i).0;
         if st == 3 || st == 5 {
@@ -590,7 +725,7 @@ fn mutate(base: &[u8], rng: &mut Rng, cap: usize) -> Vec<u8> {
         9 => {
             // genuine response, but longer than the slot it belongs to (length field says so too)
             if b.len() > 17 {
-                let l = (cap - 16 + 1 + rng.below(40) as usize).min(2047);
+                let l = if rng.chance(1, 2) { cap - 16 + 1 + rng.below(3) as usize } else { (cap - 16 + 1 + rng.below(40) as usize).min(2047) };
                 b.resize(16 + l, 0);
                 b[14] = l as u8;
                 b[15] = 0x10 | ((l >> 8) as u8);
@@ -658,29 +793,43 @@ fn step(w: &mut World, rng: &mut Rng) {
     let n = w.n;
     let cap = w.cap;
     let windows = w.mode == "c06" || w.mode == "c01" || w.mode == "c02";
-    let no_deadline = w.mode == "c02";
-    let mut ch: Vec<u8> = vec![0, 0]; // alloc
+    let tx_windows = windows || w.mode == "c05";
+    let no_deadline = w.mode == "c02" || w.mode == "c01" || w.mode == "c05";
+    let c01 = w.mode == "c01";
+    let mut ch: Vec<u8> = if c01 { vec![0, 0, 0] } else { vec![0, 0] }; // alloc
     let cr: Vec<usize> = (0..n).filter(|i| w.created[*i].is_some()).collect();
     let fu: Vec<usize> = (0..n).filter(|i| w.futs[*i].is_some()).collect();
     let re: Vec<usize> = (0..n).filter(|i| w.received[*i].is_some()).collect();
     let se: Vec<usize> = (0..n).filter(|i| w.sending[*i].is_some()).collect();
-    if !cr.is_empty() {
-        ch.extend([1, 1, 1, 2, 2, 3]);
+    let vs: Vec<usize> = (0..w.views.len()).filter(|k| w.views[*k].is_some()).collect();
+    if c01 {
+        // favour complete round trips so that responses actually get read
+        if !cr.is_empty() { ch.extend([1, 1, 1, 1, 2, 2, 2, 2, 2, 2]); if rng.chance(1, 6) { ch.push(3); } }
+        ch.extend([4, 4, 4, 4]);
+        if !se.is_empty() { ch.extend([5, 5, 5, 5, 5, 5]); }
+        if w.rx.is_some() { ch.extend([6, 6, 6, 6, 6, 6]); }
+        if !fu.is_empty() { ch.extend([7, 7, 7, 7, 7, 7]); if rng.chance(1, 8) { ch.push(8); } }
+        if !re.is_empty() { ch.extend([9, 10, 10, 10, 10, 10, 11, 11, 11]); }
+        if !vs.is_empty() { ch.extend([12, 12, 12, 13, 13, 14]); }
+    } else {
+        if !cr.is_empty() {
+            ch.extend([1, 1, 1, 2, 2, 3]);
+        }
+        ch.extend([4, 4]);
+        if !se.is_empty() {
+            ch.extend([5, 5, 5]);
+        }
+        if w.rx.is_some() {
+            ch.extend([6, 6, 6]);
+        }
+        if !fu.is_empty() {
+            ch.extend([7, 7, 7, 8]);
+        }
+        if !re.is_empty() {
+            ch.extend([9, 9]);
+        }
     }
-    ch.extend([4, 4]);
-    if !se.is_empty() {
-        ch.extend([5, 5, 5]);
-    }
-    if w.rx.is_some() {
-        ch.extend([6, 6, 6]);
-    }
-    if !fu.is_empty() {
-        ch.extend([7, 7, 7, 8]);
-    }
-    if !re.is_empty() {
-        ch.extend([9, 9]);
-    }
-    if !windows && !se.is_empty() {
+    if !tx_windows && !se.is_empty() {
         ch = vec![5];
     }
     match *rng.pick(&ch) {
@@ -731,7 +880,22 @@ fn step(w: &mut World, rng: &mut Rng) {
         6 => {
             // deliver something
             let c05 = w.mode == "c05";
-            let bytes = if !w.in_flight.is_empty() && rng.chance(3, 4) {
+            let bytes = if c05 && rng.chance(1, 4) {
+                // a frame aimed at a slot's current first-datagram index, whatever state the slot is in
+                let k = rng.below(n as u64) as usize;
+                let (_st, key, used) = w.md.verif_slot(k);
+                let mut slotb = vec![0u8; cap];
+                w.md.verif_slot_bytes(k, &mut slotb);
+                let plen = match rng.below(4) { 0 => used, 1 => cap - 16, 2 => cap - 16 + 1 + rng.below(2) as usize, _ => rng.range(2, (cap - 16) as u64) as usize };
+                let mut f = vec![0xffu8; 6];
+                f.extend([0x12, 0x10, 0x10, 0x10, 0x10, 0x10, 0x88, 0xa4]);
+                f.extend([(plen & 0xff) as u8, 0x10 | ((plen >> 8) as u8 & 7)]);
+                let mut payload: Vec<u8> = slotb[16..].to_vec();
+                payload.resize(plen, 0);
+                if plen > 1 { payload[1] = if key < 256 { key as u8 } else { rng.byte() }; }
+                f.extend(payload);
+                f
+            } else if !w.in_flight.is_empty() && rng.chance(3, 4) {
                 let k = rng.below(w.in_flight.len() as u64) as usize;
                 let base = if rng.chance(3, 4) { w.in_flight.remove(k) } else { w.in_flight[k].clone() };
                 let resp = response_for(&base, rng);
@@ -782,6 +946,29 @@ fn step(w: &mut World, rng: &mut Rng) {
                 w.drop_fut(i);
             }
         }
+        10 => {
+            let i = *rng.pick(&re);
+            let wrong = if rng.chance(1, 8) { rng.range(1, 2) as u8 } else { 0 };
+            w.take(i, wrong);
+        }
+        11 => {
+            let i = *rng.pick(&re);
+            w.iter(i);
+        }
+        12 => {
+            let k = *rng.pick(&vs);
+            w.vread(k);
+        }
+        13 => {
+            let k = *rng.pick(&vs);
+            let len = w.views[k].as_ref().unwrap().len;
+            let ct = rng.below(len as u64 + 3) as usize;
+            w.vtrim(k, ct);
+        }
+        14 => {
+            let k = *rng.pick(&vs);
+            w.views[k] = None;
+        }
         _ => {
             let i = *rng.pick(&re);
             let windowed = windows && !w.in_window && rng.chance(1, 2);
@@ -825,6 +1012,9 @@ fn new_world<const N: usize, const D: usize>(mode: &str) -> Box<World> {
         poll_was: None,
         cur_poll_expired: false,
         in_window: false,
+        handles: (0..N).map(|_| Vec::new()).collect(),
+        accepted: (0..N).map(|_| None).collect(),
+        views: Vec::new(),
         last_status: vec![0; N],
         rx_inside: None,
         dropping: None,
@@ -837,6 +1027,10 @@ fn new_world<const N: usize, const D: usize>(mode: &str) -> Box<World> {
 /// let go of everything, then the full capacity must be allocatable (C03 probe)
 fn drain_probe(w: &mut World) {
     let n = w.n;
+    // every still-held view is read once more, then dropped
+    for k in 0..w.views.len() {
+        if w.views[k].is_some() { w.vread(k); w.views[k] = None; }
+    }
     let se: Vec<usize> = (0..n).filter(|i| w.sending[*i].is_some()).collect();
     for i in se {
         w.tx_done(i, 0);
